@@ -250,6 +250,21 @@ class PathEnum:
                                     pv.append(self.load(st, a[1]))
                             if len(pv) == 2:
                                 val = ('bin', 'Eq' if d['method'] == 'eq' else 'Ne', pv[0], pv[1], '?')
+                        # unwrapping an Option whose variant is known on this path yields the payload (or the given / zero default)
+                        fnm = d.get('fn', '')
+                        if fnm in ('core::option::Option::<T>::unwrap_or_default', 'core::option::Option::<T>::unwrap_or') and args:
+                            rcv = args[0]
+                            while rcv[0] in ('conv', 'idcall'):
+                                rcv = rcv[2]
+                            if rcv[0] == 'agg' and rcv[1].endswith('::Some') and rcv[2]:
+                                val = rcv[2][0]
+                            elif rcv[0] == 'agg' and rcv[1].endswith('::None'):
+                                if fnm.endswith('::unwrap_or') and len(args) > 1:
+                                    val = args[1]
+                                else:
+                                    dty = sg.ctxs[n.ctx].fn['locals'][d['dest']['l']]['ty'] if not d['dest']['p'] else '?'
+                                    a_ = ADT_INFO.get(dty) if 'ADT_INFO' in globals() else None
+                                    val = ('const', 0, dty)      # Default of an integer / transparent integer newtype (bitflags: the empty set)
                         # pointee values of by-reference arguments that point at plain locals (receivers)
                         pointees = []
                         for a in args:
@@ -568,6 +583,26 @@ class Folder:
             lo, hi = (-(1 << (tb[0] - 1)), (1 << (tb[0] - 1)) - 1) if tb[1] else (0, (1 << tb[0]) - 1)
             return 0 if lo <= v <= hi else 1
         if k == 'field':
+            # a field chain rooted in `opt.unwrap_or_default()` / `opt.unwrap_or(d)` whose receiver is a known Some(..) / None on this path
+            chain, inner = [], t
+            while inner[0] == 'field':
+                chain.append(inner[2])
+                inner = inner[1]
+            if inner[0] == 'call' and inner[2] in ('core::option::Option::<T>::unwrap_or_default', 'core::option::Option::<T>::unwrap_or') and inner[3]:
+                recv = _strip(inner[3][0])
+                if recv[0] == 'agg' and recv[1].endswith('::Some') and recv[2]:
+                    x = recv[2][0]
+                    for f_ in reversed(chain):
+                        x = ('field', x, f_)
+                    return self.ev(simplify(x))
+                if recv[0] == 'agg' and recv[1].endswith('::None'):
+                    if inner[2].endswith('unwrap_or') and len(inner[3]) > 1:
+                        x = inner[3][1]
+                        for f_ in reversed(chain):
+                            x = ('field', x, f_)
+                        return self.ev(simplify(x))
+                    if all(f_ in ('0', 'bits') for f_ in chain):
+                        return 0      # Default of a transparent integer newtype (bitflags: the empty set)
             v = t[1]
             if v[0] == 'agg' and len(v[2]) == 1 and t[2] in ('0', 'bits'):
                 return self.ev(v[2][0])
